@@ -16,19 +16,25 @@ logger = logging.getLogger(__name__)
 
 _BEFORE_EXPR_EVENT_NAMES = {evt.value for evt in BEFORE_EXPR_EVENTS}
 _TRACER_STACK: "List[BaseTracer]" = []
-_allow_event_handling = True
-_allow_reentrant_event_handling = False
+
+
+class _ReentrancySwitches(threading.local):
+    # per thread, so that emissions of one thread cannot make another thread's look reentrant
+    allow_event_handling = True
+    allow_reentrant_event_handling = False
+
+
+_switches = _ReentrancySwitches()
 
 
 @contextmanager
 def allow_reentrant_event_handling():
-    global _allow_reentrant_event_handling
-    orig_allow_reentrant_handling = _allow_reentrant_event_handling
-    _allow_reentrant_event_handling = True
+    orig_allow_reentrant_handling = _switches.allow_reentrant_event_handling
+    _switches.allow_reentrant_event_handling = True
     try:
         yield
     finally:
-        _allow_reentrant_event_handling = orig_allow_reentrant_handling
+        _switches.allow_reentrant_event_handling = orig_allow_reentrant_handling
 
 
 def _make_ret(event, ret):
@@ -104,19 +110,19 @@ def _emit_tracer_loop(
     frame,
     kwargs,
 ):
-    global _allow_reentrant_event_handling
-    global _allow_event_handling
     current_thread_id = threading.current_thread().ident
-    is_reentrant = not _allow_event_handling
-    reentrant_handlers_only = is_reentrant and not _allow_reentrant_event_handling
-    _allow_event_handling = False
+    is_reentrant = not _switches.allow_event_handling
+    reentrant_handlers_only = (
+        is_reentrant and not _switches.allow_reentrant_event_handling
+    )
+    _switches.allow_event_handling = False
     for tracer in _TRACER_STACK:
         if current_thread_id != _main_thread_id and not tracer.multiple_threads_allowed:
             continue
         if (
             is_reentrant
             and not tracer.allow_reentrant_events
-            and not _allow_reentrant_event_handling
+            and not _switches.allow_reentrant_event_handling
         ):
             continue
         if not _file_passes_filter_impl(
@@ -143,15 +149,13 @@ def _emit_tracer_loop(
 
 
 def _emit_event(event, node_id, **kwargs):
-    global _allow_event_handling
-    global _allow_reentrant_event_handling
     __debuggerskip__ = True  # noqa: F841
     frame = sys._getframe().f_back
     if frame.f_code.co_filename == __file__:
         # weird shit happens if we instrument this file, so exclude it.
         return _make_ret(event, kwargs.get("ret", None))
-    orig_allow_event_handling = _allow_event_handling
-    orig_allow_reentrant_event_handling = _allow_reentrant_event_handling
+    orig_allow_event_handling = _switches.allow_event_handling
+    orig_allow_reentrant_event_handling = _switches.allow_reentrant_event_handling
     if len(_TRACER_STACK) > 0:
         remapping = _TRACER_STACK[-1].node_id_remapping_by_fname.get(
             frame.f_code.co_filename
@@ -166,6 +170,6 @@ def _emit_event(event, node_id, **kwargs):
             kwargs,
         )
     finally:
-        _allow_event_handling = orig_allow_event_handling
-        _allow_reentrant_event_handling = orig_allow_reentrant_event_handling
+        _switches.allow_event_handling = orig_allow_event_handling
+        _switches.allow_reentrant_event_handling = orig_allow_reentrant_event_handling
     return _make_ret(event, kwargs.get("ret"))
